@@ -184,9 +184,11 @@ def check_case(case):
             if not e <= tol:
                 what = "lpi_outside_table" if (ld["ev"]["type"] == "lpi" and not (
                     min(p[0] for p in ld["ev"]["pts"]) <= t <= max(p[0] for p in ld["ev"]["pts"]))) else ld["ev"]["type"]
-                return Result(False, "C48.imposed_%s.%s" % (ld["kind"], what),
-                              "t=%r %s=%r, evolution %r gives %r (|diff|=%.3g > tol %.3g)" % (
-                                  t, name, row[col], ld["ev"], v, e, tol), sample=sample)
+                rr = Result(False, "C48.imposed_%s.%s" % (ld["kind"], what),
+                            "t=%r %s=%r, evolution %r gives %r (|diff|=%.3g > tol %.3g)" % (
+                                t, name, row[col], ld["ev"], v, e, tol), sample=sample)
+                rr.failing_time, rr.nsub = t, (nsub if verbose != "quiet" else None)
+                return rr
     kinds = set(ld["kind"] for ld in pb["loads"])
     if len(kinds) == 2:
         classes.append("control.mixed")
@@ -212,7 +214,31 @@ def check_case(case):
     return Result(True, nontrivial=nontrivial, classes=sorted(set(classes)), errs=errs, sample=sample)
 
 
-replay_main({"paths": check_case})
+KNOWN_MISSED_END = "C48.end_of_period_missed.short_period_substepped"
+
+
+def check_case_keyed(case):
+    """a violation observed at the end of a requested period that is short with respect to the absolute time
+    ((te - ti) < 0.05 max(|ti|, |te|)) in a run without dynamic time step scaling that rejected at least one step
+    belongs to the known class 'end of period missed' (see mtest_gen.py / findings/pending/C48.json); every other
+    violation keeps its own key"""
+    r = check_case(case)
+    if r.ok or r.key.startswith("C48.harness") or case["opt"].get("dynamic"):
+        return r
+    times = g.expand_times(case["pb"]["times"])
+    tf = getattr(r, "failing_time", None)
+    sub = getattr(r, "nsub", None)
+    if tf is None or sub == 0:
+        return r
+    for a, b in zip(times, times[1:]):
+        if abs(b - tf) <= 1e-14 * max(abs(t) for t in times) and g.is_short_period(a, b):
+            r.msg = "[%s] %s" % (r.key, r.msg)
+            r.key = KNOWN_MISSED_END
+            break
+    return r
+
+
+replay_main({"paths": check_case_keyed})
 
 if __name__ == "__main__":
     try:
@@ -220,7 +246,7 @@ if __name__ == "__main__":
     except RuntimeError as e:
         print("C48: cannot build the behaviour library: %s" % e)
         sys.exit(2)
-    g.run_hypothesis_batched(U, "paths", case_strategy(), check_case, max_examples=param("cases", 150),
+    g.run_hypothesis_batched(U, "paths", case_strategy(), check_case_keyed, max_examples=param("cases", 150),
                              batch=param("batch", 6))
     s = U.subs.get("paths", {})
     n = s.get("evaluations", 0)
